@@ -8,6 +8,7 @@ import DriverOps.Quantile
 import DriverOps.Scan
 import DriverOps.Rechunk
 import DriverOps.Partial
+import DriverOps.UserAgg
 
 open Flox DriverOps
 
@@ -17,7 +18,8 @@ def ops : List (String × (List (List String) → String)) :=
     ("quantile", handleQuantile), ("qkernel", handleQuantile),
     ("scan", handleScan),
     ("rechunk-optimal", handleRechunk), ("rechunk-blockwise", handleRechunk), ("rechunk-cohorts", handleRechunk), ("rechunk-spec", handleRechunk),
-    ("partial", handlePartial) ]
+    ("partial", handlePartial),
+    ("reduceR", handleUserAgg) ]
 
 def handle (line : String) : String :=
   let secs := sections line
